@@ -38,12 +38,9 @@ class World:
         self.policy = GenericPolicy()
 
     def V(self, name):
-        to = self.alias.get(name)
-        if to is not None:
-            try:
-                return Sym(Fraction(to))
-            except ValueError:
-                name = to
+        name = Sym.resolve(name)
+        if isinstance(name, Fraction):
+            return Sym(name)
         if self.values is None:
             return Sym.var(name)
         if name in self.values:
@@ -218,7 +215,7 @@ def entries(lam):
 
 def build(cfg, values=None):
     N, form, variant = cfg['N'], cfg['form'], cfg['variant']
-    w = World(values=values, seed=cfg.get('seed', 0), alias=cfg.get('alias'))
+    w = World(values=values, seed=cfg.get('seed', 0))
     obs = []
     with w.shadow():
         d = w.V('d')
@@ -329,8 +326,7 @@ def build(cfg, values=None):
                 assumptions.append(z3.Real(nm % k) > 0)
             assumptions.append(z3.Real('E1_%d' % k) - z3.Real('nu12_%d' % k) * z3.Real('nu12_%d' % k) * z3.Real('E2_%d' % k) > 0)
             assumptions.append(z3.Real('nu_%d' % k) * z3.Real('nu_%d' % k) < 1)
-    info = {'values': {k: str(v) for k, v in w.used.items()}, 'stats': {}, 'plies': N,
-            'eq_events': [list(map(lambda d_: list(d_) if d_ else None, ev)) for ev in w.policy.eq_events]}
+    info = {'values': {k: str(v) for k, v in w.used.items()}, 'stats': {}, 'plies': N}
     return obs, assumptions, info
 
 
@@ -413,38 +409,15 @@ def main():
         if 'cfg' in r:
             r['cfg'].setdefault('m', r['cfg']['N'])
             r['cfg'].setdefault('n', r['cfg']['form'])
-    # equality loci: wherever the executed code compared two symbolic inputs (or an input and a number) for equality, the first pass
-    # took the generic branch; every such locus is explored in a second pass with the equality imposed (same symbol / that number)
-    follow, unexplored = [], []
+    def admissible(vn, to, cfg0):
+        if vn.split('_')[0] in ('t', 'E', 'E1', 'E2', 'G12', 'G13', 'G23') and to.lstrip('-').replace('/', '').isdigit() and Fraction(to) <= 0:
+            return False        # thickness and moduli are positive
+        return cfg0['variant'] == 'oracle'
+    res = kprop.explore_loci(__name__, res, run, admissible)
     for r in res:
-        for ev in (r.get('extra') or {}).get('eq_events', []):
-            a, b = ev
-            cfg0 = r['cfg']
-            if a and b and a[0] == 'var' and b[0] in ('var', 'num'):
-                al = {a[1]: b[1]}
-            elif a and b and b[0] == 'var' and a[0] == 'num':
-                al = {b[1]: a[1]}
-            else:
-                unexplored.append({'cfg': cfg0['group'], 'comparison': ev})
-                continue
-            (vn, to), = al.items()
-            if vn.split('_')[0] in ('t', 'E', 'E1', 'E2', 'G12', 'G13', 'G23') and to.lstrip('-').replace('/', '').isdigit() and Fraction(to) <= 0:
-                continue        # not an admissible input (thickness and moduli are positive)
-            c2 = dict(cfg0, alias=al, group=cfg0['group'] + ':on-the-locus-%s=%s' % (vn, to))
-            c2.pop('canary', None)
-            if not any(f['group'] == c2['group'] and f['variant'] == c2['variant'] and f['form'] == c2['form'] for f in follow):
-                follow.append(c2)
-    run.extra['equality_loci_explored'] = [f['group'] for f in follow]
-    run.extra['equality_comparisons_not_explored'] = unexplored[:20]
-    for u in unexplored[:5]:
-        run.inconclusive.append({'name': 'equality comparison on symbolic values with no explored locus: %s' % (u,), 'info': 'generic branch only'})
-    if follow:
-        res2 = pmap(kprop.job, [(__name__, c) for c in follow])
-        for r in res2:
-            if 'cfg' in r:
-                r['cfg'].setdefault('m', r['cfg']['N'])
-                r['cfg'].setdefault('n', r['cfg']['form'])
-        res = res + res2
+        if 'cfg' in r:
+            r['cfg'].setdefault('m', r['cfg']['N'])
+            r['cfg'].setdefault('n', r['cfg']['form'])
     kprop.handle(run, res, build, 'laminate entries differ')
     pd = job_pd(None)
     sats = run.absorb_job(pd)
